@@ -393,7 +393,7 @@ func ridFamily(t *testing.T, r *run) {
 
 type cuidRec struct {
 	Kind  string `json:"kind"`
-	Run   int    `json:"run"` // calls of one run follow each other without the state being set in between
+	Run   int    `json:"run"`  // calls of one run follow each other without the state being set in between
 	Proc  int    `json:"proc"` // a new virtual clock (bubble) starts a new proc
 	Mac   string `json:"mac"`
 	Lt    uint64 `json:"lt"`
